@@ -2592,7 +2592,8 @@ class Convex:
             elif self.xtype == 'I':
                 output = self.multiplier*self.sign*abs(value_in).max() + value_out
             elif self.xtype == 'S':
-                output = self.multiplier**2*self.sign*(value_in**2) + value_out
+                squares = (value_in**2).reshape(np.shape(value_out))
+                output = self.multiplier**2*self.sign*squares + value_out
             elif self.xtype == 'Q':
                 output = self.multiplier**2*self.sign*(value_in**2).sum() + value_out
             elif self.xtype == 'X':
@@ -4576,7 +4577,8 @@ class DecConvex(Convex):
                     item += value_out
                     output.append(item)
                 elif self.xtype == 'S':
-                    output.append(self.multiplier**2*self.sign*(value_in**2) + value_out)
+                    squares = (value_in**2).reshape(np.shape(value_out))
+                    output.append(self.multiplier**2*self.sign*squares + value_out)
                 elif self.xtype == 'Q':
                     item = self.multiplier**2*self.sign*(value_in**2).sum()
                     item += value_out
